@@ -17,8 +17,10 @@ Clauses (site = root combinator of the *smallest* failing closed subtree + label
   framing           reader position after the read != number of bytes written, or the trailing bytes are not left unread
   calc-size-raises  spec.calc_size() raised (site '<Class>.calc_size')
   calc-size-wrong   calc_size() returned n but some encoding does not have length n
-  probe-accepted    an out-of-domain probe (length max+1, wrong fixed length/count, integer out of range, bitfield
-                    overflow) was written instead of raising (site '<site>:<probe>')
+  probe-accepted    an out-of-domain probe (length max+1, wrong fixed length/count, integer out of range; bitfield member
+                    too large / negative / -- for shift=False layouts -- with bits below its own offset or straddling its
+                    mask) was written instead of raising (site '<site>:<probe>')
+  probe-partial-write  the probe raised, but only after bytes had already been written to the (fresh) writer
 
 Deviation from DESIGN: a reference encoder (ref-bytes) was added so that symmetric mistakes (both directions using the
 wrong byte order / wrong prefix width) are visible; "window-consuming" is decided per value (Val.eof), not only per tree,
@@ -150,7 +152,10 @@ def eval_tree(desc, part: Optional[Part] = None) -> List[dict]:
             w = se.BufferWriter(endian)
             try:
                 w.write(spec, pr.value)
-            except Exception:
+            except Exception as e:
+                if len(w.buffer):
+                    bad("probe-partial-write", f"{tsite}:{pr.why}", f"out-of-domain value {_short(pr.value, 80)} ({pr.why}) raised {e!r} only after "
+                                                                    f"{len(w.buffer)} bytes {bytes(w.buffer[:16]).hex()} had been written", probe=pr.why, endian=endian)
                 continue
             bad("probe-accepted", f"{tsite}:{pr.why}", f"out-of-domain value {_short(pr.value, 80)} ({pr.why}) was written as "
                                                        f"{len(w.buffer)} bytes {bytes(w.buffer[:16]).hex()}.. instead of raising",
